@@ -32,8 +32,7 @@ Theorem C12_memo_not_transparent :
 Proof. exact (@memo_not_transparent). Qed.
 
 (** caches whose key determines what the cached computation reads *)
-Theorem C12_sig_cache_sufficient : forall T (x y : list node),
-  forallb (wf_sig T) x = true -> forallb (wf_sig T) y = true ->
+Theorem C12_sig_cache_sufficient : forall (x y : list node),
   sig_key x = sig_key y -> sig_cache_deps x = sig_cache_deps y.
 Proof. exact sig_cache_sufficient. Qed.
 
@@ -43,35 +42,53 @@ Theorem C12_pre_eval_cache_sufficient : forall B (x y : pre_input),
   pre_key x = pre_key y -> pre_deps x = pre_deps y.
 Proof. exact pre_cache_sufficient'. Qed.
 
+(** the comptime cache is consulted and filled only for nodes that do not read the backend
+    (49da69f): transparent on every history, for every function of what running the node
+    reads, the backend included *)
+Theorem C12_memo_gated_transparent :
+  forall (X K V : Type) (keqb : K -> K -> bool), (forall a b, keqb a b = true <-> a = b) ->
+  forall (gate : X -> bool) (key : X -> K) (f : X -> V) history,
+    (forall x y, In x history -> In y history -> gate x = true -> gate y = true -> key x = key y -> f x = f y) ->
+    run_memo_gated keqb gate key f history = map f history.
+Proof. exact (@memo_gated_transparent_on). Qed.
+
+Theorem C12_pre_eval_cache_transparent :
+  forall (K V : Type) (keqb : K -> K -> bool), (forall a b, keqb a b = true <-> a = b) ->
+  forall impure B (kinj : node -> K), (forall a b, kinj a = kinj b -> a = b) ->
+  forall (g : (node * list (option (N * bool))) * option N -> V) (history : list pre_input_b),
+    (forall x, In x history -> wf_body B node_eqb (fst (fst x)) = true /\ globals (fst (fst x)) = []) ->
+    run_memo_gated keqb (fun x => negb (reads_backend impure (fst (fst x)))) (fun x => kinj (pre_key_b x))
+                   (fun x => g (pre_deps_b impure x)) history
+    = map (fun x => g (pre_deps_b impure x)) history.
+Proof. exact (@pre_cache_gated_transparent). Qed.
+
 (** the inverse caches (un / anti / under) and the fast-function cache, keyed by [hash_deep]
-    (25aa9f6, 7da4086): the key determines everything the cached value is made of — spans,
-    function indices, bodies, names — hence a hit returns what a fresh computation returns,
-    on every history, for every function of those ingredients (name-sensitive outputs too); [inv_deps_named] is everything the
-    inversion reads of its input and of the functions table — NOT the length of the spans table, see below *)
-Theorem C12_inverse_cache_sufficient : forall T (x y : inv_input),
-  forallb (wf_sigd T) (fst x) = true -> forallb (wf_sigd T) (fst y) = true ->
+    (25aa9f6, 7da4086, 8592559; anti also by for_un, 261768c): the key determines everything
+    the cached value is made of — spans, function indices, signatures, bodies, names, the
+    extra arguments — hence a hit returns what a fresh computation returns, on every
+    history, for every function of those ingredients; [inv_deps_named] is everything the
+    inversion reads of its input and of the functions table — NOT the length of the spans
+    table, see below *)
+Theorem C12_inverse_cache_sufficient : forall (x y : inv_input),
   inv_key x = inv_key y -> inv_deps_named x = inv_deps_named y.
 Proof. exact inv_cache_sufficient. Qed.
 
-Theorem C12_zip_cache_sufficient : forall T (x y : node),
-  wf_sig T x = true -> wf_sig T y = true ->
+Theorem C12_zip_cache_sufficient : forall (x y : node),
   zip_key x = zip_key y -> zip_deps_named x = zip_deps_named y.
 Proof. exact zip_cache_sufficient. Qed.
 
 Theorem C12_inverse_cache_transparent :
   forall (K V : Type) (keqb : K -> K -> bool), (forall a b, keqb a b = true <-> a = b) ->
-  forall T (kinj : list node * (N * bool) -> K), (forall a b, kinj a = kinj b -> a = b) ->
+  forall (kinj : list node * (N * bool) -> K), (forall a b, kinj a = kinj b -> a = b) ->
   forall (g : list node * (N * bool) -> V) usable (history : list inv_input),
-    (forall x, In x history -> forallb (wf_sigd T) (fst x) = true) ->
     run_memo keqb usable (fun x => kinj (inv_key x)) (fun x => g (inv_deps_named x)) history
     = map (fun x => g (inv_deps_named x)) history.
 Proof. exact (@inv_cache_transparent). Qed.
 
 Theorem C12_zip_cache_transparent :
   forall (K V : Type) (keqb : K -> K -> bool), (forall a b, keqb a b = true <-> a = b) ->
-  forall T (kinj : node -> K), (forall a b, kinj a = kinj b -> a = b) ->
+  forall (kinj : node -> K), (forall a b, kinj a = kinj b -> a = b) ->
   forall (g : node -> V) usable (history : list node),
-    (forall x, In x history -> wf_sig T x = true) ->
     run_memo keqb usable (fun x => kinj (zip_key x)) (fun x => g (zip_deps_named x)) history
     = map (fun x => g (zip_deps_named x)) history.
 Proof. exact (@zip_cache_transparent). Qed.
@@ -95,27 +112,12 @@ Proof. exact (@memo_store_transparent_on). Qed.
 
 Theorem C12_inverse_cache_store_transparent :
   forall (K V : Type) (keqb : K -> K -> bool), (forall a b, keqb a b = true <-> a = b) ->
-  forall T (kinj : list node * (N * bool) -> K), (forall a b, kinj a = kinj b -> a = b) ->
+  forall (kinj : list node * (N * bool) -> K), (forall a b, kinj a = kinj b -> a = b) ->
   forall (u : list node * (N * bool) -> bool) (g : list node * (N * bool) -> option N -> V) usable
          (history : list inv_input_l),
-    (forall x, In x history -> forallb (wf_sigd T) (fst (fst x)) = true) ->
     run_memo_store keqb usable (inv_store_l u) (fun x => kinj (inv_key_l x)) (inv_f_l u g) history
     = map (inv_f_l u g) history.
 Proof. exact (@inv_cache_store_transparent). Qed.
-
-(** open finding: in Lsp pre-evaluation mode the comptime cache serves values that were read
-    from another compiler's backend (the key is the node only); nodes that do not read the
-    backend (all that Normal mode admits) are covered by the key *)
-Theorem C12_pre_eval_cache_backend_refuted : forall (impure : N -> bool) p, impure p = true ->
-  exists x y, pre_key_b x = pre_key_b y /\ pre_deps_b impure x <> pre_deps_b impure y.
-Proof. exact pre_cache_backend_refuted. Qed.
-
-Theorem C12_pre_eval_cache_sufficient_no_backend : forall impure B (x y : pre_input_b),
-  wf_body B node_eqb (fst (fst x)) = true -> wf_body B node_eqb (fst (fst y)) = true ->
-  globals (fst (fst x)) = [] -> globals (fst (fst y)) = [] ->
-  reads_backend impure (fst (fst x)) = false -> reads_backend impure (fst (fst y)) = false ->
-  pre_key_b x = pre_key_b y -> pre_deps_b impure x = pre_deps_b impure y.
-Proof. exact pre_cache_sufficient_b. Qed.
 
 (** the purity key does not determine what is read of the bindings table (open finding) *)
 Theorem C12_purity_cache_refuted : exists x y, pur_key x = pur_key y /\ pur_deps x <> pur_deps y.
@@ -150,13 +152,23 @@ Proof. exact inv_cache_names_refuted_pre. Qed.
 Theorem C12_zip_cache_names_refuted_pre :
   exists x y, zip_key_pre_names x = zip_key_pre_names y /\ zip_deps_named x <> zip_deps_named y.
 Proof. exact zip_cache_names_refuted_pre. Qed.
+Theorem C12_sig_cache_refuted_pre : exists x y, sig_key_pre x = sig_key_pre y /\ sig_cache_deps x <> sig_cache_deps y.
+Proof. exact sig_cache_refuted_pre. Qed.
+Theorem C12_anti_cache_for_un_refuted_pre :
+  exists x y, anti_key_pre x = anti_key_pre y /\ inv_deps_named x <> inv_deps_named y.
+Proof. exact anti_cache_for_un_refuted_pre. Qed.
+(** before 49da69f the comptime cache served every node (Lsp mode: values read from a backend) *)
+Theorem C12_pre_eval_cache_backend_refuted_pre : forall (impure : N -> bool) p, impure p = true ->
+  exists x y, pre_key_b x = pre_key_b y /\ pre_deps_b impure x <> pre_deps_b impure y.
+Proof. exact pre_cache_backend_refuted. Qed.
 Theorem C12_inverse_cache_spans_len_refuted_pre :
   exists x y, inv_key_l x = inv_key_l y /\ inv_deps_l x <> inv_deps_l y.
 Proof. exact inv_cache_spans_len_refuted_pre. Qed.
 Theorem C12_repaired_keys_separate_pre :
   inv_key un_w1 <> inv_key un_w2 /\ inv_key un_w3 <> inv_key un_w4 /\
   zip_key zip_w1 <> zip_key zip_w2 /\ zip_key zip_w3 <> zip_key zip_w4 /\
-  inv_key un_n1 <> inv_key un_n2 /\ zip_key zip_n1 <> zip_key zip_n2.
+  inv_key un_n1 <> inv_key un_n2 /\ zip_key zip_n1 <> zip_key zip_n2 /\
+  sig_key sg_w1 <> sig_key sg_w2 /\ inv_key an_w1 <> inv_key an_w2.
 Proof. exact repaired_keys_separate. Qed.
 
 (** non-vacuity: a history with a repeated key and a non-trivial cached function on which
@@ -167,7 +179,7 @@ Example C12_nonvacuous :
   let f := fun x : N => (x mod 3) * 10 in
   sufficient key f /\
   run_memo N.eqb always key f [4; 7; 5; 1] = [10; 10; 20; 10] /\
-  inv_key ix_w1 <> inv_key ix_w2 /\ forallb (wf_sigd (fun _ => S01c)) (fst ix_w1) = true /\
+  inv_key ix_w1 <> inv_key ix_w2 /\ wf_body (fun _ => NPush 7) node_eqb (hd (NPush 0) (fst ix_w1)) = true /\
   sig_key [NMod DIP [(NCall 1 S11 0 99 0 (body_at 2) 5, S11)] 6] =
   sig_key [NMod DIP [(NCall 2 S11 1 99 1 (body_at 3) 9, S11)] 4].
 Proof.
@@ -181,6 +193,8 @@ Print Assumptions C12_memo_transparent_hashed.
 Print Assumptions C12_memo_not_transparent.
 Print Assumptions C12_sig_cache_sufficient.
 Print Assumptions C12_pre_eval_cache_sufficient.
+Print Assumptions C12_memo_gated_transparent.
+Print Assumptions C12_pre_eval_cache_transparent.
 Print Assumptions C12_inverse_cache_sufficient.
 Print Assumptions C12_zip_cache_sufficient.
 Print Assumptions C12_inverse_cache_transparent.
@@ -188,8 +202,6 @@ Print Assumptions C12_zip_cache_transparent.
 Print Assumptions C12_inverse_key_needs_index.
 Print Assumptions C12_memo_store_transparent.
 Print Assumptions C12_inverse_cache_store_transparent.
-Print Assumptions C12_pre_eval_cache_backend_refuted.
-Print Assumptions C12_pre_eval_cache_sufficient_no_backend.
 Print Assumptions C12_purity_cache_refuted.
 Print Assumptions C12_inverse_sufficient_after_fix.
 Print Assumptions C12_zip_sufficient_after_fix.
@@ -200,5 +212,8 @@ Print Assumptions C12_zip_cache_refuted_span_pre.
 Print Assumptions C12_zip_cache_refuted_index_pre.
 Print Assumptions C12_inverse_cache_names_refuted_pre.
 Print Assumptions C12_zip_cache_names_refuted_pre.
+Print Assumptions C12_sig_cache_refuted_pre.
+Print Assumptions C12_anti_cache_for_un_refuted_pre.
+Print Assumptions C12_pre_eval_cache_backend_refuted_pre.
 Print Assumptions C12_inverse_cache_spans_len_refuted_pre.
 Print Assumptions C12_repaired_keys_separate_pre.
